@@ -22,6 +22,9 @@ callback, a (skip)ped callback, a varargs callback) and then
     name is declared before any declaration that mentions it, struct tags may be used
     before their definition).  n<=4 all DAGs; n=5: all DAGs in the thorough tier, the
     chains and their one-extra-edge neighbours in the quick tier
+ E  namespace Foo including FooDep (a namespace whose name starts with "Foo", with types named like local
+    ones): FooDep types in every slot kind of part A, directly and through annotations; in addition to the
+    invariants, a live qualified reference FooDep.* must be present (rule type-requalified)
  D  cross references: closure/destroy/array-length annotations naming every parameter
     (functions, methods, callbacks, fields), rename-to pairs, GObject classes whose
     properties (from a generated runtime dump) have exotic types and accessor methods,
@@ -134,38 +137,67 @@ ANNS_MORE = ['(type utf8)', '(type FooSkip)', '(type FooVaCb)', '(array)', '(sco
              '(array zero-terminated=1) (element-type FooUnknown)', '(type long long)']
 
 
+def slot_template(a, ann, extra=()):
+    """the atom `a` (with annotation `ann`) in every slot kind -> (decls, comments)"""
+    decls = ENV + list(extra) + [
+        fn('foo_f', 'void', [(a, 'p')]),
+        fn('foo_r', a, []),
+        fn('foo_obj_m', 'void', [('FooObj*', 'self'), (a, 'p')]),
+        fn('foo_obj_r', a, [('FooObj*', 'self')]),
+        cb('FooCbP', 'void', [(a, 'p')]),
+        cb('FooCbR', a, []),
+        td('FooS', 'struct _FooS'), st('_FooS', [['f', 'f', a], ['fcb', 'fcb', 'void', [[a, 'p']], False]]),
+        td('FooU', 'union _FooU'), st('_FooU', [['f', 'f', a], ['f', 'i', 'int']], True),
+        td('FooAl', a),
+        fn('foo_use_alias', 'void', [('FooAl', 'p')]),
+    ] + CLASS_DECLS_HEAD + [
+        st('_FooThingClass', [['f', 'parent_class', 'GObjectClass'],
+                              ['fcb', 'vf', 'void', [['FooThing*', 'self'], [a, 'p']], False],
+                              ['fcb', 'vr', a, [['FooThing*', 'self']], False]]),
+        GET_TYPE,
+        fn('foo_thing_vf', 'void', [('FooThing*', 'self'), (a, 'p')]),
+    ]
+    com = list(ENV_COMMENTS)
+    if ann:
+        for f in ('foo_f', 'foo_obj_m', 'FooCbP', 'foo_thing_vf', 'FooThingClass::vf'):
+            com.append(blk(f, params=[('p', ann, 'p')]))
+        for f in ('foo_r', 'foo_obj_r', 'FooCbR', 'FooThingClass::vr'):
+            com.append(blk(f, ret=(ann, 'r')))
+        com.append(blk('FooS', params=[('f', ann, 'f')]))
+        com.append(blk('FooU', params=[('f', ann, 'f')]))
+    return decls, com
+
+
+def part_e(tier):
+    """Namespace Foo including FooDep (deps/c15: a namespace whose NAME starts with "Foo" and which defines Rec,
+    Thing, Kind, Func) next to same-named local types (record Rec, class Thing, callback Func): FooDep types in
+    every slot kind of part A, directly and through annotations."""
+    local = [td('FooRec', 'struct _FooRec'), st('_FooRec', [['f', 'x', 'int']]),
+             cb('FooFunc', 'void', [('gpointer', 'user_data')])]
+    atoms = [('FooDepRec*', ''), ('FooDepThing*', ''), ('FooDepKind', ''), ('FooDepFunc', '(scope call)'), ('FooDepRec', ''),
+             ('FooDepThing**', '(array zero-terminated=1)'), ('FooDepRec**', '(out)'),
+             ('GList*', '(element-type FooDep.Thing)'), ('GPtrArray*', '(element-type FooDep.Rec)'),
+             ('GHashTable*', '(element-type utf8 FooDep.Rec)'), ('gpointer', '(type FooDep.Rec)'),
+             ('gpointer', '(type FooDep.Thing)'), ('int', '(type FooDep.Kind)'),
+             # controls: the same-named local types, which must stay unqualified
+             ('FooRec*', ''), ('FooFunc', '(scope call)'), ('FooThing*', '')]
+    cases = []
+    for a, ann in atoms:
+        decls, com = slot_template(a, ann, extra=local)
+        dep = 'FooDep' in a or 'FooDep' in ann
+        cases.append({'part': 'E', 'decls': decls, 'comments': com, 'dump': dump_xml(), 'dep': 'c15',
+                      'expect_ref': 'FooDep.' if dep else None,
+                      'note': 'Foo including FooDep: atom %s, annotation %s' % (a, ann or '-')})
+    return cases
+
+
 def part_a(tier):
     atoms = ATOMS_QUICK + (ATOMS_MORE if tier == 'thorough' else [])
     anns = ANNS_QUICK + (ANNS_MORE if tier == 'thorough' else [])
     cases = []
     for a in atoms:
         for ann in anns:
-            decls = ENV + [
-                fn('foo_f', 'void', [(a, 'p')]),
-                fn('foo_r', a, []),
-                fn('foo_obj_m', 'void', [('FooObj*', 'self'), (a, 'p')]),
-                fn('foo_obj_r', a, [('FooObj*', 'self')]),
-                cb('FooCbP', 'void', [(a, 'p')]),
-                cb('FooCbR', a, []),
-                td('FooS', 'struct _FooS'), st('_FooS', [['f', 'f', a], ['fcb', 'fcb', 'void', [[a, 'p']], False]]),
-                td('FooU', 'union _FooU'), st('_FooU', [['f', 'f', a], ['f', 'i', 'int']], True),
-                td('FooAl', a),
-                fn('foo_use_alias', 'void', [('FooAl', 'p')]),
-            ] + CLASS_DECLS_HEAD + [
-                st('_FooThingClass', [['f', 'parent_class', 'GObjectClass'],
-                                      ['fcb', 'vf', 'void', [['FooThing*', 'self'], [a, 'p']], False],
-                                      ['fcb', 'vr', a, [['FooThing*', 'self']], False]]),
-                GET_TYPE,
-                fn('foo_thing_vf', 'void', [('FooThing*', 'self'), (a, 'p')]),
-            ]
-            com = list(ENV_COMMENTS)
-            if ann:
-                for f in ('foo_f', 'foo_obj_m', 'FooCbP', 'foo_thing_vf', 'FooThingClass::vf'):
-                    com.append(blk(f, params=[('p', ann, 'p')]))
-                for f in ('foo_r', 'foo_obj_r', 'FooCbR', 'FooThingClass::vr'):
-                    com.append(blk(f, ret=(ann, 'r')))
-                com.append(blk('FooS', params=[('f', ann, 'f')]))
-                com.append(blk('FooU', params=[('f', ann, 'f')]))
+            decls, com = slot_template(a, ann)
             cases.append({'part': 'A', 'decls': decls, 'comments': com, 'dump': dump_xml(),
                           'note': 'atom %s, annotation %s' % (a, ann or '-')})
     return cases
@@ -531,7 +563,7 @@ def rename_shape(assign):
     return 'simple'
 
 
-PARTS = {'A': part_a, 'B': part_b, 'C': part_c, 'D': part_d}
+PARTS = {'A': part_a, 'B': part_b, 'C': part_c, 'D': part_d, 'E': part_e}
 
 
 # ---------------------------------------------------------------- execution --
@@ -573,7 +605,12 @@ def run_case(case):
     """-> (status, findings, xml, root): status 'ok' | 'rejected' (scanner exits with a diagnostic) | 'crash'"""
     decls = number([build(s) for s in case['decls']])
     comments = [scanrun.comment(t, line=100 + 40 * i) for i, t in enumerate(case['comments'])]
-    r = scanrun.scan(decls, comments, includes=INCLUDES, dump=case.get('dump'))
+    dirs = [DEPS]
+    includes = INCLUDES
+    if case.get('dep'):
+        dirs = [os.path.join(DEPS, case['dep']), DEPS]
+        includes = INCLUDES + ['FooDep-1.0']
+    r = scanrun.scan(decls, comments, includes=includes, dump=case.get('dump'), include_paths=dirs)
     if r.error is not None:
         if r.error.startswith('SystemExit'):
             return 'rejected', r.error, None, None
@@ -582,8 +619,26 @@ def run_case(case):
     # explicit (set-property)/(get-property) annotations may name anything: for those descriptions only the
     # forward direction (property accessor -> method's annotation) and uniqueness are MUST
     ann = bool(case.get('annotated_accessors'))
-    f = inv.check_root(root, [DEPS], strict_accessors=not ann, unique_accessors=True)
+    f = inv.check_root(root, dirs, strict_accessors=not ann, unique_accessors=True)
+    if case.get('expect_ref') and not f and not _live_ref(root, case['expect_ref']):
+        # every type reference resolved - but to something else: the description uses a type of the included
+        # namespace in elements that stay introspectable, and no such qualified reference was written
+        f.append(('type-requalified', 'namespace[Foo]', 'no live element refers to %s* although the API uses such types'
+                  % case['expect_ref']))
     return 'ok', f, r.xml, root
+
+
+def _live_ref(root, prefix):
+    """does some live (not introspectable="0") element carry a <type name="prefix...">?"""
+    def rec(e, alive):
+        for k in e.kids:
+            a = alive and k.get('introspectable') != '0'
+            if a and k.tag in ('type', 'array') and (k.get('name') or '').startswith(prefix):
+                return True
+            if rec(k, a):
+                return True
+        return False
+    return rec(root.find('namespace'), True)
 
 
 def live_summary(root):
@@ -699,7 +754,7 @@ def run(ctx):
     tier = ctx.tier
     cases = []
     sizes = {}
-    for name in 'ABCD':
+    for name in 'ABCDE':
         cs = PARTS[name](tier)
         sizes[name] = len(cs)
         cases += cs
